@@ -178,7 +178,7 @@ def vr_obl(op, slew=None, difbits=20, timeout=400, tiers=('quick', 'thorough')):
                funcs=['vr32.c:set_step_step', 'vr32.c:set_step', 'vr32.c:poly_fir_u', 'vr32.c:poly_fir_d'])
 
 
-PLAN_OPS = {0: 'set_dft_length', 1: 'dft_stage_init', 2: 'init_validation'}
+PLAN_OPS = {0: 'set_dft_length', 1: 'dft_stage_init', 2: 'init_validation', 3: 'halving_loop'}
 PLAN_STUBS = ['log(): log2 bracket floor(log2 x) <= r < floor(log2 x)+1 (only used as log(a)/log(2))', 'lsx_design_lpf / lsx_fir_to_phase: any length <= 33 of the forced residue class, any peak position',
               'rdft_cb: set-up functions check the documented pffft precondition; transforms are no-ops']
 
@@ -186,6 +186,13 @@ PLAN_STUBS = ['log(): log2 bracket floor(log2 x) <= r < floor(log2 x)+1 (only us
 def plan_obl(op, rdft_flags=None, kf=None, timeout=300):
     defs = ['-DVF_OP=%d' % op] + (['-DVF_RDFT_FLAGS=%s' % rdft_flags] if rdft_flags is not None else [])
     name = 'plan_%s%s%s' % (PLAN_OPS[op], '' if rdft_flags is None else '_flags%s' % rdft_flags, '_probe' if kf else '')
+    if op == 3:
+        return Obl(name=name, src='cr_plan.c', defs=defs, unwind=1, unwindset=['_soxr_init.0:60'], timeout=timeout,
+                   witness_re=r'cr\.c:_soxr_init:\d+ unwinding assertion loop 1$',
+                   ignore_props=[r'^(?!cr\.c:_soxr_init:\d+ unwinding assertion loop 0$).*unwinding assertion loop', r'VF_WITNESS'],
+                   desc='_soxr_init (cr.c): the loop that counts the 2:1 stages terminates for every finite ratio in [1, 1e15] and performs no out-of-range float->int conversion',
+                   bounds='io_ratio in [1, 1e15], HQ spec; 60 iterations of that loop (2^50 > 1e15); the rest of the planning loop is cut (bound 1) - its unwinding assertions are not part of the claim; reachability witness: the cut of the following loop',
+                   stubs=PLAN_STUBS, funcs=['cr.c:_soxr_init'])
     return Obl(name=name, src='cr_plan.c', defs=defs, unwind=35 if op != 2 else 1, unwinding_assertions=(op != 2), timeout=timeout, kf=kf,
                desc={0: 'set_dft_length (cr.c) for every filter length <= 2^20 and every documented log2_min/large_dft_size',
                      1: 'dft_stage_init (cr.c): DFT-stage envelope established for every L <= 256, M <= 4, phase, filter length / peak position the design may return',
@@ -201,3 +208,11 @@ def kern_eq_obl(pair):
                desc='fixed-length portable kernel %s vs the general kernel %s on the poly_firs[] row that names it: bit-identical outputs, consumption and clock' % names,
                bounds='CONCRETE probe states (8 clock fractions separating every PHASE_BITS value, index-revealing table, distinct sample weights): decided by symbolic execution (constant propagation) - no quantification; a symbolic table/clock exceeded 10 GB',
                stubs=['generated table vf_coefs[i] == i'], funcs=['cr-core.c:%s' % names[0], 'cr-core.c:%s' % names[1], 'cr-core.c:poly_firs'])
+
+
+def init_qq_obl(timeout=600):
+    return Obl(name='init_quick_recipe', src='init_qq.c', unwind=4, timeout=timeout, extra=KISSAT,
+               desc='the real _soxr_init (cr.c) for the quick recipe with symbolic io_ratio and gain: the cubic stage it builds is inside ENV(cubic) (progress, context, pre-load, gain once)',
+               bounds='precision 0 (no planning loop), io_ratio in [1e-6, 1e9], gain in (0, 1e6), any runtime flags; higher precisions are not symbolically executable',
+               stubs=['stage array calloc: typed exactly sized object', 'design functions unreachable on this path (asserted)'],
+               funcs=['cr.c:_soxr_init', 'cr.c:_soxr_close', 'fifo.h:fifo_create', 'fifo.h:fifo_reserve'])
